@@ -56,10 +56,30 @@ func main() {
 			stopProfile = func() { pprof.StopCPUProfile(); f.Close() }
 		}
 	}
-	r := ev.Start("C18", "exploration")
-	if !*childFlag {
-		runParent(r) // never returns
+	// ev.Supervise re-executes the driver and turns a death of the workload process (a pooled writer
+	// used after Close, a fatal error …) into a verdict. The supervising parent must not run ev's
+	// progress watchdog itself: it observes nothing while it waits (the child keeps its own).
+	supervised := os.Getenv("VERIF_SUPERVISED") != ""
+	replaying := false
+	for _, a := range os.Args[1:] {
+		if strings.HasPrefix(a, "--replay") || strings.HasPrefix(a, "-replay") {
+			replaying = true
+		}
 	}
+	if !supervised && !replaying && os.Getenv("VERIF_NO_SUPERVISE") == "" {
+		os.Setenv("C18_WATCHDOG_S", os.Getenv("VERIF_WATCHDOG_S"))
+		os.Setenv("VERIF_WATCHDOG_S", "0")
+	} else if supervised {
+		if v, ok := os.LookupEnv("C18_WATCHDOG_S"); ok {
+			if v == "" {
+				os.Unsetenv("VERIF_WATCHDOG_S")
+			} else {
+				os.Setenv("VERIF_WATCHDOG_S", v)
+			}
+		}
+	}
+	r := ev.Start("C18", "exploration")
+	r.Supervise() // returns only in the supervised child (and in replay mode)
 	r.Rule("codec: seeded reflective values of every regattapb message type (all oneof arms incl. none, optional fields unset/zero/value, nil/empty/nasty/large bytes, nested sequences), " +
 		"decoded by the registered codec into a fresh object and, for Command and SnapshotChunk, into objects recycled with ResetVT / ReturnToVTPool after holding a different larger message; " +
 		"compressors: seeded payloads 0 B–8 MiB of six kinds, 16/32/64 goroutines exchanging compressed payloads; streams: seeded command sequences (0–2000 commands, values 0 B–2 MiB) " +
@@ -103,19 +123,6 @@ func main() {
 	}
 	se := &streamEnv{r: r, ce: ce, g: g, tables: &fakeTables{got: map[string]readResult{}}}
 
-	// watchdog: a hang is not a verdict
-	limit := time.Duration(r.Pick(6, 45)) * time.Minute
-	go func() {
-		time.Sleep(limit)
-		f, _ := os.Create(filepath.Join(scratchDir(), "c18-watchdog-goroutines.txt"))
-		if f != nil {
-			_ = pprof.Lookup("goroutine").WriteTo(f, 2)
-			f.Close()
-		}
-		fmt.Printf("INCONCLUSIVE property=C18 watchdog: run did not finish within %v\n", limit)
-		os.Exit(2)
-	}()
-
 	if r.Replay != "" {
 		var doc replayDoc
 		if _, err := r.ReadReplay(&doc); err != nil {
@@ -149,7 +156,7 @@ func main() {
 			os.Exit(2)
 		}
 		g.close()
-		finish(r)
+		r.Finish()
 	}
 
 	observeEmptyMessage(r)
@@ -212,7 +219,7 @@ func main() {
 	if r.Get("oracle_disagreements") == 0 {
 		r.Count("oracles_agree", 1)
 	}
-	finish(r)
+	r.Finish()
 }
 
 var stopProfile = func() {}
@@ -274,13 +281,13 @@ func runAll(r *ev.Run, ce *codecEnv, se *streamEnv) {
 				if j.codec != nil {
 					ce.runCodecCase(*j.codec)
 					r.Count("worker_ms_codec_cases", time.Since(t0).Milliseconds())
-					if d := time.Since(t0); d > 8*time.Second {
+					if d := time.Since(t0); d > 30*time.Second {
 						r.Note(fmt.Sprintf("slow codec case %s seed %d: %.1fs", j.codec.Type, j.codec.Seed, d.Seconds()))
 					}
 				} else {
 					runStreamCase(se, *j.stream)
 					r.Count("worker_ms_stream_cases", time.Since(t0).Milliseconds())
-					if d := time.Since(t0); d > 8*time.Second {
+					if d := time.Since(t0); d > 30*time.Second {
 						r.Note(fmt.Sprintf("slow stream case %d: %.1fs", j.stream.Idx, d.Seconds()))
 					}
 				}
